@@ -25,9 +25,20 @@ Definition term_of (tbl : term_table) (v i : nat) : slot :=
 Definition mk_g (rs : ruleset F64) (tbl : term_table) (G : omen) : sgram F64 :=
   mk_sgram rs (term_of tbl) G.
 
+(* An observed pop with the base-structure LINE it descends from (Next.v's ghost
+   tag; the harness follows it through the implementation by object identity).
+   Two identical grammar.txt lines give items that are equal as
+   (pt, base_prob, prob): matched by those alone, the order-following queue would
+   match an entry of [order] that the first copy already consumed and pop the
+   second copy too early.  With the line the key is unique (NoDup of
+   all_preterminals). *)
+Definition tobs := (nat * obs)%type.
+Definition tobs_of (it : item F64) : tobs := (itag it, obs_of it).
+Definition tobs_eqb (a b : tobs) : bool := Nat.eqb (fst a) (fst b) && obs_eqb (snd a) (snd b).
+
 (* the model's queue follows the order in which the implementation popped *)
-Definition follow (order : list obs) : queue F64 -> option (item F64 * queue F64) :=
-  pop_follow (fun x o => obs_eqb (obs_of x) o) order.
+Definition follow (order : list tobs) : queue F64 -> option (item F64 * queue F64) :=
+  pop_follow (fun x o => tobs_eqb (tobs_of x) o) order.
 
 Definition saved_eqb (a b : saved) : bool :=
   match a, b with
@@ -45,10 +56,10 @@ Definition osaved_eqb (a b : option saved) : bool :=
 Record ms_case := mk_ms_case {
   ms_k      : nat;                              (* pre-terminals generated in full before the level *)
   ms_j      : nat;                              (* the quit was seen after the j-th guess of the level *)
-  ms_order1 : list obs;                         (* pops of the interrupted run *)
+  ms_order1 : list tobs;                         (* pops of the interrupted run *)
   ms_out1   : list str;                         (* what the interrupted run printed *)
   ms_file   : option (float * nat * saved);     (* max_probability, omen_guess_number, .omn; None: nothing saved *)
-  ms_order2 : list obs;                         (* pops of the resumed run *)
+  ms_order2 : list tobs;                         (* pops of the resumed run *)
   ms_out2   : list str;                         (* what the resumed run printed *)
   ms_rest   : nat                               (* how many of these restore_omen printed *)
 }.
@@ -68,7 +79,7 @@ Definition check_ms (up : list (N * str)) (g : sgram F64) (k : ms_case) : bool :
       | Some r =>
           strs_eqb (resumed_out upc session_omen_restored_before_loop g r) (ms_out2 k) &&
           Nat.eqb (length (rr_rest r)) (ms_rest k) &&
-          list_eqb obs_eqb (map obs_of (resumed_pops r)) (ms_order2 k) &&
+          list_eqb tobs_eqb (map tobs_of (resumed_pops r)) (ms_order2 k) &&
           is_nil (pending (rr_queue r))
       | None => false
       end
